@@ -178,6 +178,23 @@ def c07(v):
     return viols, trig
 
 
+def legit_end_at(v, s, t):
+    """did something that may legitimately end the main phase of s happen
+    at instant t: a critical raise, the expiry, the last non-forever
+    completion, or a cancellation from outside"""
+    c, f, E = causes(v, s)
+    if c is not None and c[T] == t:
+        return True
+    if E is not None and E == t:
+        return True
+    if f is not None and f[T] == t:
+        return True
+    for e in v.all(('run_cancel', 'creq'), s):
+        if e[T] == t:
+            return True
+    return False
+
+
 # ---------------------------------------------------------------------- C12
 def c12(v):
     viols = []
@@ -205,9 +222,11 @@ def c12(v):
                             "%s starts at t=%s but its last requirement "
                             "finished (or its scheduler began) at t=%s"
                             % (c, b[T], due_t)))
-                elif me is None or due_t < me[T]:
+                elif me is None or due_t < me[T] or (
+                        due_t == me[T] and not legit_end_at(v, s, due_t)):
                     # eligible strictly before the scheduler left its main
-                    # phase (or the run never ended), yet never started
+                    # phase (or the run never ended, or nothing that may end
+                    # a run happened at that instant), yet never started
                     viols.append((
                         'c12:never-started',
                         "%s is eligible since t=%s (#%d) in unwindowed %s but "
